@@ -103,8 +103,10 @@ let () = serve (fun fn req ->
     let st = SL.map (fun e -> match jlist e with [h; d] -> (jtext h, jbytes d) | _ -> raise (Model_error "store"))
         (jlist (jfield req "store")) in
     let store h = try Some (SL.assoc h st) with Not_found -> None in
+    let comp = SL.map jtext (jlist (jfield req "completed")) in
+    let completed h = SL.mem h comp in
     let frags = SL.map jbytes (jlist (jfield req "frags")) in
-    let (s, outs) = srv_run rl store fresh_server frags in
+    let (s, outs) = srv_run rl store completed fresh_server frags in
     JObj ["open", of_bool s.s_open; "buf", of_bytes s.s_buf; "outs", of_list of_sout outs]
   | "tserver_trace" ->
     let idle = jz (jfield req "idle") and trans = jz (jfield req "transfer") in
